@@ -287,58 +287,114 @@ func boltMethod(ins ssa.Instruction) (recv, name string) {
 var boltMutators = map[string]bool{"Bucket.Put": true, "Bucket.Delete": true, "Bucket.NextSequence": true, "Bucket.SetSequence": true, "Bucket.CreateBucket": true, "Bucket.CreateBucketIfNotExists": true, "Bucket.DeleteBucket": true, "Tx.CreateBucket": true, "Tx.CreateBucketIfNotExists": true, "Tx.DeleteBucket": true, "Cursor.Delete": true}
 
 // txKind: how is this closure run? "Update", "View", "initDB" or "".
-func txKind(fn *ssa.Function) string {
-	parent := fn.Parent()
-	if parent == nil {
-		return ""
-	}
-	kind := ""
-	core.Instrs(parent, func(ins ssa.Instruction) {
-		mc, ok := ins.(*ssa.MakeClosure)
-		var v ssa.Value
-		if ok && mc.Fn == fn {
-			v = mc
+// txKinds classifies the functions of pkg/store by the kind of bbolt
+// transaction they run in: a function (closure or named) passed to
+// DB.Update / DB.View / DB.Batch, a function registered in the initDB table,
+// or an unexported helper all of whose call sites are in functions of one
+// such kind.
+func txKinds(fns []*ssa.Function) map[*ssa.Function]string {
+	kinds := map[*ssa.Function]string{}
+	fnOf := func(v ssa.Value) *ssa.Function {
+		switch x := v.(type) {
+		case *ssa.MakeClosure:
+			f, _ := x.Fn.(*ssa.Function)
+			return f
+		case *ssa.Function:
+			return x
 		}
-		if v == nil {
-			// closures without free variables are plain function values
-			for _, op := range ins.Operands(nil) {
-				if *op == ssa.Value(fn) {
-					v = fn
-				}
-			}
-			if v == nil {
-				return
-			}
+		return nil
+	}
+	callers := map[*ssa.Function][]*ssa.Function{}
+	for _, f := range fns {
+		core.Instrs(f, func(ins ssa.Instruction) {
 			if c, ok := ins.(ssa.CallInstruction); ok {
 				if rcv, name := boltMethod(c); rcv == "DB" && (name == "Update" || name == "View" || name == "Batch") {
-					kind = name
+					for _, a := range c.Common().Args {
+						if g := fnOf(a); g != nil {
+							kinds[g] = name
+						}
+					}
+				}
+				if callee := c.Common().StaticCallee(); callee != nil {
+					callers[callee] = append(callers[callee], f)
 				}
 			}
-			if mu, ok := ins.(*ssa.MapUpdate); ok && mu.Value == v {
+			if mu, ok := ins.(*ssa.MapUpdate); ok {
 				if ld, ok := core.IsLoad(mu.Map); ok {
 					if g, ok := ld.(*ssa.Global); ok && g.Name() == "initDB" {
-						kind = "initDB"
+						if h := fnOf(mu.Value); h != nil {
+							kinds[h] = "initDB"
+						}
 					}
 				}
 			}
-			return
+		})
+	}
+	for changed := true; changed; {
+		changed = false
+		for _, f := range fns {
+			if kinds[f] != "" || len(callers[f]) == 0 {
+				continue
+			}
+			if obj := f.Object(); obj != nil && obj.Exported() {
+				continue
+			}
+			k := ""
+			same := true
+			for _, c := range callers[f] {
+				ck := kinds[c]
+				if ck == "" || (k != "" && ck != k) {
+					same = false
+				}
+				k = ck
+			}
+			if same && k != "" {
+				kinds[f] = k
+				changed = true
+			}
 		}
-		for _, ref := range *mc.Referrers() {
-			if c, ok := ref.(ssa.CallInstruction); ok {
-				if rcv, name := boltMethod(c); rcv == "DB" && (name == "Update" || name == "View" || name == "Batch") {
-					kind = name
+	}
+	return kinds
+}
+
+var txKindCache = map[*ssa.Program]map[*ssa.Function]string{}
+
+func txKind(fn *ssa.Function) string {
+	prog := fn.Prog
+	m, ok := txKindCache[prog]
+	if !ok {
+		var fns []*ssa.Function
+		for _, pkg := range prog.AllPackages() {
+			if pkg.Pkg.Path() != pkgStore {
+				continue
+			}
+			var add func(f *ssa.Function)
+			add = func(f *ssa.Function) {
+				fns = append(fns, f)
+				for _, a := range f.AnonFuncs {
+					add(a)
 				}
 			}
-			if mu, ok := ref.(*ssa.MapUpdate); ok && mu.Value == ssa.Value(mc) {
-				if ld, ok := core.IsLoad(mu.Map); ok {
-					if g, ok := ld.(*ssa.Global); ok && g.Name() == "initDB" {
-						kind = "initDB"
+			for _, mem := range pkg.Members {
+				switch x := mem.(type) {
+				case *ssa.Function:
+					add(x)
+				case *ssa.Type:
+					for _, t := range []types.Type{x.Type(), types.NewPointer(x.Type())} {
+						ms := prog.MethodSets.MethodSet(t)
+						for i := 0; i < ms.Len(); i++ {
+							if f := prog.MethodValue(ms.At(i)); f != nil && f.Pkg == pkg && f.Synthetic == "" {
+								add(f)
+							}
+						}
 					}
 				}
 			}
 		}
-	})
-	return kind
+		m = txKinds(fns)
+		txKindCache[prog] = m
+	}
+	return m[fn]
 }
 
 func runC24(p *core.Program, r *core.Report) {
@@ -524,7 +580,18 @@ func runC25(p *core.Program, r *core.Report) {
 	nsfd := p.Func(pkgStore, "NewStoreFromDB")
 	if r.Anchor("TX-ONLY", "store.NewStoreFromDB", nsfd != nil) {
 		okInit := false
-		for _, a := range nsfd.AnonFuncs {
+		var cands []*ssa.Function
+		cands = append(cands, nsfd.AnonFuncs...)
+		core.Instrs(nsfd, func(ins ssa.Instruction) {
+			if c, ok := ins.(ssa.CallInstruction); ok {
+				for _, a := range c.Common().Args {
+					if f, ok := a.(*ssa.Function); ok {
+						cands = append(cands, f)
+					}
+				}
+			}
+		})
+		for _, a := range cands {
 			if txKind(a) == "Update" {
 				core.Instrs(a, func(ins ssa.Instruction) {
 					if rg, ok := ins.(*ssa.Range); ok {
